@@ -17,6 +17,11 @@ def run(res):
     prove_obligations(res, THEOREMS.get("C06", []))
     files, bad = compressed_files(rng, 600 if thorough else 70, max_n=250)
     big, bad2 = compressed_files(rng, 40 if thorough else 6, max_n=8000, shapes=["sparse", "uniform", "clusters"])
+    # categorical data: bodies that are nothing but Huffman codes of different lengths
+    cat, bad3 = compressed_files(rng, 300 if thorough else 45, max_n=1500, shapes=["zipf"], orders=[0, 0, 0, 1], levels=[8, 8, 12, 4])
+    cat = [f for f in cat if len(f["hex"]) // 2 <= 4096]
+    files = files + cat
+    bad = bad + bad3
     res.oblige("K:valid files were produced", "K", not bad and not bad2, str((bad + bad2)[:1])[:300])
     qs, meta = [], []
     for f in files + big:
